@@ -339,6 +339,7 @@ func main() {
 			scs := []*explore.Scenario{{
 				Name:   "channel operation pairs and triples",
 				Shards: 16,
+				Bound:  b,
 				Enum: func(c *explore.EnumCtx) {
 					for _, cc := range ccs {
 						if !c.Mine() || c.Expired() {
@@ -355,6 +356,7 @@ func main() {
 			}, {
 				Name:   "bootstrap operation pairs and triples",
 				Shards: 13,
+				Bound:  b,
 				Enum: func(c *explore.EnumCtx) {
 					for _, bc := range bcs {
 						if !c.Mine() || c.Expired() {
